@@ -1,5 +1,5 @@
 import Pendulum.Proofs.C05
-import Pendulum.Proofs.DTArithGen
+import Pendulum.Proofs.DTArithGenSub
 import Pendulum.Proofs.IntervalGenNew
 import Pendulum.Proofs.IntervalGenInit
 import Pendulum.Proofs.IntervalGenUnits
